@@ -64,9 +64,13 @@ type Universe struct {
 type World struct {
 	Repo     string
 	Thorough bool
+	Overlay  map[string][]byte // in-memory variants of source files (sensitivity sweep)
+	Soft     bool
 	unis     map[string]*Universe
 	Stats    map[string]int
 }
+
+var errVariantDoesNotCompile = fmt.Errorf("variant does not type-check")
 
 func newWorld(repo string, thorough bool) *World {
 	return &World{Repo: repo, Thorough: thorough, unis: map[string]*Universe{}, Stats: map[string]int{}}
@@ -93,7 +97,10 @@ func (w *World) uni(name string) *Universe {
 	default:
 		machineryFailure("unknown universe %q", name)
 	}
-	u := loadUniverse(name, w.Repo, dir, w.Thorough)
+	u := loadUniverseOverlay(name, w.Repo, dir, w.Thorough && w.Overlay == nil, w.Overlay, w.Soft)
+	if u == nil {
+		panic(errVariantDoesNotCompile)
+	}
 	w.unis[name] = u
 	w.Stats["packages_"+name] = len(u.Pkgs)
 	n := 0
@@ -123,17 +130,26 @@ func isOrda(path string) bool {
 	return path == ordaPrefix || strings.HasPrefix(path, ordaPrefix+"/")
 }
 
+// softLoad makes load and type errors return nil instead of aborting (used for in-memory variants).
 func loadUniverse(name, repo, dir string, tests bool) *Universe {
+	return loadUniverseOverlay(name, repo, dir, tests, nil, false)
+}
+
+func loadUniverseOverlay(name, repo, dir string, tests bool, overlay map[string][]byte, soft bool) *Universe {
 	os.Unsetenv("GOWORK")
 	cfg := &packages.Config{
-		Mode:  packages.LoadAllSyntax,
-		Dir:   dir,
-		Tests: tests,
+		Mode:    packages.LoadAllSyntax,
+		Dir:     dir,
+		Tests:   tests,
+		Overlay: overlay,
 		Env: append(os.Environ(),
 			"GOFLAGS=-mod=mod", "GOPROXY=off", "GOSUMDB=off", "GOTOOLCHAIN=local", "GOWORK=off"),
 	}
 	pkgs, err := packages.Load(cfg, "./...")
 	if err != nil {
+		if soft {
+			return nil
+		}
 		machineryFailure("loading %s: %v", dir, err)
 	}
 	if len(pkgs) == 0 {
@@ -149,7 +165,9 @@ func loadUniverse(name, repo, dir string, tests bool) *Universe {
 		for _, e := range p.Errors {
 			// root-module test packages and the like must type-check as well: a tree that does not
 			// compile is outside what any check can speak about.
-			fmt.Fprintf(os.Stderr, "ordalint: %s: %v\n", p.PkgPath, e)
+			if !soft {
+				fmt.Fprintf(os.Stderr, "ordalint: %s: %v\n", p.PkgPath, e)
+			}
 			nerr++
 		}
 		// With Tests:true a package appears as "p", "p [p.test]" and "p_test": keep the variant with
@@ -163,6 +181,9 @@ func loadUniverse(name, repo, dir string, tests bool) *Universe {
 		}
 	})
 	if nerr > 0 {
+		if soft {
+			return nil
+		}
 		machineryFailure("%d load/type errors in %s", nerr, dir)
 	}
 	if len(u.Pkgs) == 0 {
@@ -170,12 +191,13 @@ func loadUniverse(name, repo, dir string, tests bool) *Universe {
 	}
 	u.Fset = pkgs[0].Fset
 	prog, _ := ssautil.AllPackages(pkgs, ssa.InstantiateGenerics)
+	// only the orda packages get function bodies: the rules never look inside dependencies
 	for _, p := range prog.AllPackages() {
 		if isOrda(p.Pkg.Path()) {
 			p.SetDebugMode(true)
+			p.Build()
 		}
 	}
-	prog.Build()
 	u.Prog = prog
 	for path, p := range u.Pkgs {
 		if sp := prog.Package(p.Types); sp != nil {
